@@ -88,8 +88,8 @@ func (o BStress) Coq() string {
 		}
 		min = []int{m}
 	}
-	return fmt.Sprintf("{| bs_n := %d; bs_workers := %d;\n     bs_executed := %s;\n     bs_skipped := %s;\n     bs_fake := %d; bs_wrong := %d; bs_posts := %d; bs_post_len_ok := %v |}%%Z",
-		o.N, o.Workers, zlist(o.judged()), zlist(min), o.Fake, o.Wrong, o.Posts, o.PostLen && !o.Timeout)
+	return fmt.Sprintf("{| bs_n := %d; bs_workers := %d; bs_fail := %d;\n     bs_executed := %s;\n     bs_skipped := %s;\n     bs_fake := %d; bs_wrong := %d; bs_posts := %d; bs_post_len_ok := %v |}%%Z",
+		o.N, o.Workers, o.FailAt, zlist(o.judged()), zlist(min), o.Fake, o.Wrong, o.Posts, o.PostLen && !o.Timeout)
 }
 
 // runBatchStress: n items, c workers, stop mode.  The items in slow block until the failing item
@@ -212,7 +212,7 @@ func batchStressReplay(prop, file, out string) error {
 		}
 		inv := 0
 		for _, e := range o.Executed {
-			if e > min {
+			if e > min && e > o.FailAt {
 				inv++
 			}
 		}
